@@ -160,7 +160,9 @@ func (f *Formatter) formatComments(comments ast.Comments, sep string, level int,
 
 	buf.Reset()
 	for i := range comments {
-		if comments[i].PreviousEmptyLines > 0 {
+		// The empty line above a comment is kept for a comment on a line of its own only: inside a statement
+		// or an expression the line feed would not be an empty line any more for the next formatting
+		if comments[i].PreviousEmptyLines > 0 && sep == "\n" {
 			buf.WriteString("\n")
 		}
 		// #FASTLY macros are not indented
